@@ -1,5 +1,95 @@
 import BigtreeModel.Proto
-/-! Driver handler for property C01: one case (token list) in, one canonical line out. -/
+import BigtreeModel.Store
+/-! Driver handler for property C01 (also the parser/printer used by C02, C03, C20).
+
+One line = one whole history:
+`cls=<base|node> n=<k> asrt=<0|1> names=<xhex,…|-> sep=<xhex> ops= <op> <op> …`
+
+Op tokens (ids are decimal; an id `≥ n` stands for an object that is not a node; `-` = `None` /
+the empty list; `<f>` ∈ `none|pre|post` is the user hook that raises):
+`P:v:np:f` (`v.parent = np`) · `C:v:list:f` (`v.children = [...]`) · `K:v:f` (`v.children = 5`) ·
+`D:v` (`del v.children`) · `A:p:c:f` (`p.append(c)`) · `E:p:list:f:k` (`p.extend([...])`, fault at
+element `k`) · `R:p:c:f` (`p >> c`) · `L:c:p:f` (`c << p`) · `X:p:xname:f` (`del p[name]`) ·
+`S:v:ranks:rev` (`v.sort(key=ranks[id], reverse=rev)`) · `Z:v:xsep` (`v.sep = value`).
+
+Output: for each op `<ok|rej> <store>` joined by ` ; `, store = `i>parent[children]` per node. -/
 namespace Drv.C01
-def handle (_toks : List String) : String := "unimplemented"
+open Proto
+
+def parseFault : String → Option Fault
+  | "none" => some .none
+  | "pre" => some .pre
+  | "post" => some .post
+  | _ => none
+
+def parseOptNat (s : String) : Option (Option Nat) :=
+  if s == "-" then some none else s.toNat?.map some
+
+def parseBool01 : String → Option Bool
+  | "0" => some false
+  | "1" => some true
+  | _ => none
+
+def parseOp (tok : String) : Option Store.Op :=
+  match tok.splitOn ":" with
+  | ["P", v, np, f] => do pure (.setParent (← v.toNat?) (← parseOptNat np) (← parseFault f))
+  | ["C", v, l, f] => do pure (.setChildren (← v.toNat?) (← parseNats l) (← parseFault f))
+  | ["K", v, f] => do pure (.setChildrenNonList (← v.toNat?) (← parseFault f))
+  | ["D", v] => do pure (.delChildren (← v.toNat?))
+  | ["A", p, c, f] => do pure (.append (← p.toNat?) (← c.toNat?) (← parseFault f))
+  | ["E", p, l, f, k] => do pure (.extend (← p.toNat?) (← parseNats l) (← parseFault f) (← k.toNat?))
+  | ["R", p, c, f] => do pure (.rshift (← p.toNat?) (← c.toNat?) (← parseFault f))
+  | ["L", c, p, f] => do pure (.lshift (← c.toNat?) (← parseOptNat p) (← parseFault f))
+  | ["X", p, nm, f] => do pure (.delItem (← p.toNat?) (← unhex nm) (← parseFault f))
+  | ["S", v, r, rev] => do pure (.sort (← v.toNat?) (← parseNats r) (← parseBool01 rev))
+  | ["Z", v, sp] => do pure (.setSep (← v.toNat?) (← unhex sp))
+  | _ => none
+
+/-- receiver of the call (must be a node) -/
+def receiver : Store.Op → Nat
+  | .setParent v _ _ | .setChildren v _ _ | .setChildrenNonList v _ | .delChildren v
+  | .append v _ _ | .extend v _ _ _ | .rshift v _ _ | .lshift v _ _ | .delItem v _ _
+  | .sort v _ _ | .setSep v _ => v
+
+def nodeOnly : Store.Op → Bool
+  | .delItem .. | .setSep .. => true
+  | _ => false
+
+structure Case where
+  cfg : Cfg
+  init : Store
+  ops : List Store.Op
+
+def parseCase (toks : List String) : Option Case := do
+  let cls ← kv toks "cls"
+  let node ← (if cls == "node" then some true else if cls == "base" then some false else none)
+  let n ← (← kv toks "n").toNat?
+  let asrt ← parseBool01 (← kv toks "asrt")
+  let namesTok ← kv toks "names"
+  let names ← (if namesTok == "-" then some [] else (namesTok.splitOn ",").mapM unhex)
+  let sep ← unhex (← kv toks "sep")
+  if node && (names.length != n || sep.isEmpty || names.any (·.isEmpty)) then none
+  let opToks := (toks.dropWhile (· ≠ "ops=")).drop 1
+  if !toks.contains "ops=" then none
+  let ops ← opToks.mapM parseOp
+  if ops.any (fun o => receiver o ≥ n || (!node && nodeOnly o)) then none
+  pure { cfg := { assertions := asrt, node := node },
+         init := Store.init n (fun i => names.getD i []) sep, ops := ops }
+
+def showOutcome : Outcome → String
+  | .ok => "ok"
+  | .rej => "rej"
+
+def showStore (s : Store) : String :=
+  " ".intercalate ((List.range s.n).map fun i =>
+    toString i ++ ">" ++ showOptNat (s.parent i) ++ "[" ++ ",".intercalate ((s.children i).map toString) ++ "]")
+
+def showTrace (tr : List (Outcome × Store)) : String :=
+  " ; ".intercalate (tr.map fun (o, s) => showOutcome o ++ " " ++ showStore s)
+
+def handle (toks : List String) : String :=
+  match parseCase toks with
+  | none => "bad-op"
+  | some c => showTrace (Store.trace c.cfg c.init c.ops)
+
 end Drv.C01
